@@ -1263,7 +1263,16 @@ func (p *balloons) Reconfigure(newCfg interface{}) error {
 		return err
 	}
 	log.Info("config updated successfully")
-	if err := p.Sync(p.cch.GetContainers(), p.cch.GetContainers()); err != nil {
+	// Re-admit only containers that are alive. Containers that have already
+	// been stopped (but not yet removed) must not get resources again.
+	alive := []cache.Container{}
+	for _, c := range p.cch.GetContainers() {
+		switch c.GetState() {
+		case cache.ContainerStateCreated, cache.ContainerStateRunning:
+			alive = append(alive, c)
+		}
+	}
+	if err := p.Sync(alive, p.cch.GetContainers()); err != nil {
 		log.Warnf("failed to sync containers: %v", err)
 	}
 	return nil
